@@ -6,12 +6,12 @@
    statements on the projected trace and cross-checks them against the theorems' predictions for the repaired
    variant (MODELBUG if the extracted code disagrees with what is proved). *)
 (* variants: v<s><o><l><p> = fix_sent, fix_order, fix_l2stop, fix_prune on top of the first three repairs;
-   "head" = v1010 = /repo HEAD; "repaired" = v1111; "defective" = the code as first found *)
+   "head" = v1011 = /repo HEAD; "repaired" = v1111; "defective" = the code as first found *)
 let variant_of name =
   let mk s o l p = { fix_counters = true; fix_stop = true; fix_active = true; fix_sent = s; fix_order = o; fix_l2stop = l; fix_prune = p } in
   match name with
   | "repaired" | "" -> mk true true true true
-  | "head" -> mk true false true false
+  | "head" -> mk true false true true
   | "defective" -> { fix_counters = false; fix_stop = false; fix_active = false; fix_sent = false; fix_order = false;
                      fix_l2stop = false; fix_prune = false }
   | s when String.length s = 5 && s.[0] = 'v' -> mk (s.[1] = '1') (s.[2] = '1') (s.[3] = '1') (s.[4] = '1')
@@ -200,7 +200,7 @@ let run_case v line =
                    (not (accepted true v.fix_prune t) || not stp || (fp_or_np && not (ibrk && isnt && iord)) || (np && not imono))) in
         (* Every verdict bit that is 0 must have a stated excuse, else the line is marked UNEXCUSED and cannot match:
              W  a uint64 cumulative wrapped (excuses mono, snt)
-             P  the accounting was dropped by an orphan prune and the variant sends no Stop for it (known finding)
+             P  the accounting was dropped by an orphan prune and the variant sends no Stop for it (fixed in 7faf7f9: never at HEAD)
              D  a Start of the session was held back and the variant does not order its calls (known finding)
            stp is never excused. *)
         let exc_p = pruned.(j) && not v.fix_prune and exc_d = delayed.(j) && not v.fix_order in
